@@ -84,7 +84,13 @@ def o13(ctx):
         raise Unsupported("array passed to emfile.write not recognised", ev.node)
     notes = dict((n[0], n[1:]) for n in data.notes)
     ctx.count(1, {"history of the written array": [str(n) for n in data.notes]})
-    if "fillna" not in notes or notes["fillna"][0] not in (0, 0.0):
+    fv_ = notes["fillna"][0] if "fillna" in notes else None
+    if isinstance(fv_, dict):
+        unfilled = [c for c in EM_FIELDS if fv_.get(c, None) not in (0, 0.0) or isinstance(fv_.get(c), bool)]
+        if unfilled:
+            ctx.finding(q, ev.node, f"missing values must be replaced by 0 in every field: the per-column fill table leaves {unfilled[:4]} unfilled "
+                        "(a NaN there is written to the file and read back as NaN)", ev.node, m)
+    elif "fillna" not in notes or fv_ not in (0, 0.0):
         ctx.finding(q, ev.node, "missing values must be replaced by 0 (fillna(0)) before the table is serialised", ev.node, m)
     rs = getattr(data, "reshape", None)
     ctx.count(1)
